@@ -98,6 +98,7 @@ UnfaithfulIds == IF ~GenOk THEN {}
                  ELSE {id \in Ids(Reg) : Run.paths[id + 1].res = "ok" /\ ~FaithfulTop(Reg, S, Root, id, Run.paths[id + 1].ty)}
 PathFailures == IF ~GenOk THEN {} ELSE {id \in Ids(Reg) : Run.paths[id + 1].res # "ok"}
 C02_Failed == IF ~GenOk THEN {} ELSE (IF Run.gen.parse_ok THEN {} ELSE {"Parses"}) \cup RustWfFailed(S, Run.gen.module)
+                                       \cup (IF CompactAsOKSeq(S, RootOf(Run.gen.module)) THEN {} ELSE {"CompactAsSingleField"})
 HasFamily == \E p \in UserPaths(Reg) : Cardinality(IdsOfPath(Reg, p)) > 1
 \* coincidence-freedom: evaluated on the source program by the case generator; a registry without source program (real chain
 \* metadata, family G6) is certified only if every user path has exactly one id (DESIGN.md 3.4)
